@@ -226,6 +226,53 @@ def run(ctx):
         exact[0].lineno if exact else ch9.lineno,
     )
 
+    # ---- C04.10 a CSE hit comes from the current execution ------------------------------------------------
+    # Scheduler._get_cache replays a CacheResult.CSE hit without checking validity (the value was produced moments ago, in this execution).
+    # That is only sound if the CSE query of check_cache is restricted to jobs of the current execution on *every* path to its consumption;
+    # otherwise a deleted / rewritten File recorded by an earlier execution is replayed.
+    from .C05 import _consumes, _is_callnode_query
+
+    r10 = ctx.rule("C04.10", "every path from the CSE CallNode query to its consumption filters on Job.execution_id == execution_id", floor=1)
+    dbm10 = repo.mod("redun/backends/db/__init__.py")
+    cc10 = dbm10.func("RedunBackendDb.check_cache")
+    if "execution_id" not in [a.arg for a in cc10.args.args]:
+        raise AnalysisError("check_cache no longer takes execution_id", "RedunBackendDb.check_cache")
+    cfg10 = CFG(cc10)
+    n10 = 0
+    for dn in cfg10.nodes:
+        a = dn.ast
+        if not (dn.kind == "stmt" and isinstance(a, ast.Assign) and len(a.targets) == 1 and isinstance(a.targets[0], ast.Name) and _is_callnode_query(a.value)):
+            continue
+        v = a.targets[0].id
+        if v in {x.id for x in ast.walk(a.value) if isinstance(x, ast.Name)}:
+            continue
+        uses = [n for n in cfg10.nodes if n is not dn and n.ast is not None and n.kind != "edge" and _consumes(n, v)]
+        for u in uses:
+            for path in cfg10.paths(start=dn, ends={u}, max_visits=1):
+                n10 += 1
+                ctx.paths_enumerated += 1
+                restricted = False
+                for pn in path:
+                    if pn.kind == "stmt" and isinstance(pn.ast, ast.Assign) and any(isinstance(t, ast.Name) and t.id == v for t in pn.ast.targets):
+                        for c in ast.walk(pn.ast.value):
+                            if isinstance(c, ast.Call) and last_attr(c) in ("filter", "where", "filter_by") and any(
+                                isinstance(x, ast.Compare) and len(x.ops) == 1 and isinstance(x.ops[0], ast.Eq) and {src(x.left), src(x.comparators[0])} == {"Job.execution_id", "execution_id"}
+                                for arg in c.args
+                                for x in ast.walk(arg)
+                            ):
+                                restricted = True
+                arm = "&".join(sorted(f"{'' if pn.label == 'T' else 'not '}{src(pn.test.ast)[:40]}" for pn in path if pn.kind == "edge" and isinstance(pn.test.ast, ast.expr))) or "unconditional"
+                r10.check(
+                    restricted,
+                    f"{dbm10.rel}:RedunBackendDb.check_cache:{v}:same-execution:{arm}",
+                    f"on the path where {arm}, the CSE query `{v}` reaches `{src(u.ast)[:50]}` without `Job.execution_id == execution_id`: a job of an earlier execution is returned as a "
+                    "CSE hit, which the scheduler replays without a validity check -- a File result that was deleted or rewritten since is served from the cache",
+                    dbm10.rel,
+                    u.lineno,
+                )
+    if n10 == 0:
+        raise AnalysisError("check_cache: no path from the CSE CallNode query to a consumer found", "RedunBackendDb.check_cache")
+
 
 def _arm(facts) -> str:
     keys = sorted(f"{'' if t else 'not '}{f}" for f, t in facts if "cache_type" in f or "_is_valid_value" in f or "ErrorValue" in f)
